@@ -238,6 +238,10 @@ enum htp_file_source_t {
 
 #define HTP_MAX_HEADERS_REPETITIONS 64
 
+// A new field is looked up among all the fields seen so far, so the number of
+// different fields in one message has to be bounded for the work to stay linear.
+#define HTP_MAX_HEADERS_NUMBER 1024
+
 #define HTP_HOST_INVALID ( HTP_HOSTU_INVALID | HTP_HOSTH_INVALID )
 
 // Logging-related constants.
